@@ -134,4 +134,43 @@ theorem encoder_sound (U : Universe) (hU : WFU U) (P : Problem) (fuel : Nat) (s0
       evalClause (muS (solveRun U P fuel s0).2 sel) (clauseLits (solveRun U P fuel s0).2 c) = true :=
   fun c hc he => clause_sound (solveRun_tinv U hU P fuel s0) sel hv c hc he
 
+theorem filterMap_of_ordered (org : Org) (cs vs : List Nat) (hl : vs.length = cs.length)
+    (h : ∀ p ∈ cs.zip vs, oSolv org p.2 = some p.1) : vs.filterMap (oSolv org) = cs := by
+  induction cs generalizing vs with
+  | nil =>
+    cases vs with
+    | nil => rfl
+    | cons v vs => simp at hl
+  | cons c cs ih =>
+    cases vs with
+    | nil => simp at hl
+    | cons v vs =>
+      have h0 := h (c, v) (by simp)
+      simp only at h0
+      simp only [List.filterMap_cons, h0]
+      congr 1
+      exact ih vs (by simpa using hl) (fun p hp => h p (by simp [hp]))
+
+/-- **The candidates of a requires clause are in the provider's preference order** (exact model): the positive literals of
+    every requires clause, read as the model's `decide` and propagation read them, stand — in clause order — for exactly the
+    sorted candidates of the requirement's version sets, member after member (`reqSorted`: `sort_candidates` order with
+    the favored candidate first). -/
+theorem requires_clause_order {U : Universe} {P : Problem} {s : S} (hi : TInv U P s) (c : MClause)
+    (hc : c ∈ s.clauses.toList) (p : Nat) (r : Req) (hk : c.kind = .requires p r) :
+    ∃ vars : List Nat, clauseLits s c = (p, false) :: vars.map (fun v => (v, true)) ∧ vars.filterMap (oSolv s.origins) = reqSorted U r := by
+  have hsome := hi.extra.reqs c hc p r hk
+  cases hl : s.reqCands.lookup r with
+  | none => rw [hl] at hsome; cases hsome
+  | some vsVars =>
+    refine ⟨vsVars.flatten, ?_, ?_⟩
+    · unfold clauseLits; rw [hk]; simp only [hl, Option.getD_some]
+    · obtain ⟨h1, h2⟩ := hi.extra.order r vsVars hl
+      exact filterMap_of_ordered s.origins (reqSorted U r) vsVars.flatten h1 h2
+
+theorem model_requires_order (U : Universe) (hU : WFU U) (P : Problem) (fuel : Nat) (s0 : S) :
+    ∀ c ∈ (solveRun U P fuel s0).2.clauses.toList, ∀ p r, c.kind = .requires p r →
+      ∃ vars : List Nat, clauseLits (solveRun U P fuel s0).2 c = (p, false) :: vars.map (fun v => (v, true)) ∧
+        vars.filterMap (oSolv (solveRun U P fuel s0).2.origins) = reqSorted U r :=
+  fun c hc p r hk => requires_clause_order (solveRun_tinv U hU P fuel s0) c hc p r hk
+
 end Resolvo.MDet
